@@ -7,8 +7,8 @@ SPEC = dict(
     technique="runtime differential oracle (NONBLOCK vs short-timeout vs poll fd) at hooked quiescent points",
     rule="a case is (protocol, cooked/raw, transport, seeded history of 6-14 steps); two probes (recv, send) after every step; a class is (protocol, op, descriptor state, result, preceding step) actually observed",
     assumptions=["probing changes the state (a successful probe sends/receives a message); that is part of the history"],
-    quick=dict(runs=[R("c15_nonblock", "asan", 8, 5, "", 600)],
-               floor={"probes": 4000, "@classes": 200}, eval_key="probes"),
+    quick=dict(runs=[R("c15_nonblock", "asan", 8, 3, "", 600), R("c15_nonblock", "asan", 8, 0, "parked", 600)],
+               floor={"probes": 4000, "parked_cases": 500, "@classes": 200}, eval_key="probes"),
     thorough=dict(runs=[R("c15_nonblock", "asan", 16, 24, "", 3000)],
                   floor={"probes": 15000, "@classes": 300}, eval_key="probes"),
 )
